@@ -248,6 +248,7 @@ theorem types_inequivalent_across_classes_partial : ∀ h h' : Nat, 1 ≤ h → 
   have hc := (conjugate_rots_of_affConj hconj).symm.trans hc0
   exact hne (hall_arithmetic_class_unique h' h1' h2' e.arithmeticNumber a1 a2 e' prim' he' hp' hc)
 
+set_option maxRecDepth 100000 in
 /-- **(h)** (proved in `Props/C03.lean`, re-exported): `SPGLIB_HALL_NUMBERS[n]` is the least Hall
 number with number `n`; `STANDARD_HALL_NUMBERS[n]` is the unique entry of number `n` whose setting
 string is one of "", "b", "b1", "H", "2". -/
@@ -261,6 +262,7 @@ theorem spglib_is_smallest :
         (List.range (h - 1)).all fun i => (hallTable[i]?.map (·.number)) != some (k + 1)) = true :=
   C03.spglib_is_smallest
 
+set_option maxRecDepth 100000 in
 theorem standard_is_ita :
     standardHallNumbers.size = 230 ∧
     ((List.range 230).all fun k =>
